@@ -232,7 +232,7 @@ func exec(line string) string {
 				return errStr(err)
 			}
 			return "ok " + vx.Hex(s) + " " + vx.Hex(e)
-		case w[0] == "regerr" && len(w)%2 == 1:
+		case (w[0] == "regerr" || w[0] == "regclip") && len(w)%2 == 1:
 			// the EpochNotMatch region list of a region error, through the public DecodeResponse of a Get
 			a, ok := hexes(w[3:])
 			if !ok {
@@ -252,6 +252,27 @@ func exec(line string) string {
 				return errStr(err)
 			}
 			cur := out.Resp.(*kvrpcpb.GetResponse).RegionError.EpochNotMatch.CurrentRegions
+			if w[0] == "regclip" {
+				// property: exactly the regions that DecodeRegionRange accepts survive, clipped, in order
+				j := 0
+				for i := 0; i+1 < len(a); i += 2 {
+					ds, de, err := c.DecodeRegionRange(cp(a[i]), cp(a[i+1]))
+					if err != nil {
+						if errStr(err) != "err oob" {
+							return "FAIL region-list-err"
+						}
+						continue
+					}
+					if j >= len(cur) || !bytes.Equal(cur[j].StartKey, ds) || !bytes.Equal(cur[j].EndKey, de) || cur[j].Id != uint64(i/2+1) {
+						return "FAIL foreign-or-unclipped-region " + strconv.Itoa(i/2)
+					}
+					j++
+				}
+				if j != len(cur) {
+					return "FAIL foreign-region-kept"
+				}
+				return "ok"
+			}
 			s := "ok " + strconv.Itoa(len(cur))
 			for _, r := range cur {
 				s += " " + vx.Hex(r.StartKey) + " " + vx.Hex(r.EndKey)
@@ -659,6 +680,7 @@ func main() {
 				toks = append(toks, H(es), H(ee))
 			}
 			do("regerr " + K + " " + strings.Join(toks, " "))
+			do("regclip " + K + " " + strings.Join(toks, " "))
 		case 7:
 			if len(rangeCmdList) == 0 {
 				continue
